@@ -1255,32 +1255,20 @@ func diagnose(ex *expectation, resps []obsResp, obsInv []string) (string, string
 			}
 		}
 	}
-	// Kuhn's maximum matching, responses -> entries
+	// Kuhn's matching in two phases: first cover the requests that must be
+	// answered, then place the remaining responses (augmenting paths keep
+	// every vertex that is already matched).
 	matchE := make([]int, len(entries)) // entry -> response
 	for j := range matchE {
 		matchE[j] = -1
 	}
 	matchR := make([]int, len(resps))
-	var try func(i int, seen []bool) bool
-	try = func(i int, seen []bool) bool {
-		for _, j := range accepts[keys[i]] {
-			if seen[j] {
-				continue
-			}
-			seen[j] = true
-			if matchE[j] < 0 || try(matchE[j], seen) {
-				matchE[j], matchR[i] = i, j
-				return true
-			}
-		}
-		return false
-	}
-	var unR []int
-	for i := range resps {
+	for i := range matchR {
 		matchR[i] = -1
-		if !try(i, make([]bool, len(entries))) {
-			unR = append(unR, i)
-		}
+	}
+	byKey := map[string][]int{} // response key -> response indices
+	for i, k := range keys {
+		byKey[k] = append(byKey[k], i)
 	}
 	mustRespond := func(e entry) bool {
 		for _, a := range e.alts {
@@ -1289,6 +1277,49 @@ func diagnose(ex *expectation, resps []obsResp, obsInv []string) (string, string
 			}
 		}
 		return true
+	}
+	var tryE func(j int, seenR []bool) bool
+	var tryR func(i int, seenE []bool) bool
+	tryE = func(j int, seenR []bool) bool {
+		for _, a := range entries[j].alts {
+			for _, k := range a.resp {
+				for _, i := range byKey[k] {
+					if seenR[i] {
+						continue
+					}
+					seenR[i] = true
+					if matchR[i] < 0 || tryE(matchR[i], seenR) {
+						matchE[j], matchR[i] = i, j
+						return true
+					}
+				}
+			}
+		}
+		return false
+	}
+	tryR = func(i int, seenE []bool) bool {
+		for _, j := range accepts[keys[i]] {
+			if seenE[j] {
+				continue
+			}
+			seenE[j] = true
+			if matchE[j] < 0 || tryR(matchE[j], seenE) {
+				matchE[j], matchR[i] = i, j
+				return true
+			}
+		}
+		return false
+	}
+	for j, e := range entries {
+		if mustRespond(e) {
+			tryE(j, make([]bool, len(resps)))
+		}
+	}
+	var unR []int
+	for i := range resps {
+		if matchR[i] < 0 && !tryR(i, make([]bool, len(entries))) {
+			unR = append(unR, i)
+		}
 	}
 	var unE []int
 	for j, e := range entries {
@@ -1310,17 +1341,17 @@ func diagnose(ex *expectation, resps []obsResp, obsInv []string) (string, string
 	for _, i := range unR {
 		r := resps[i]
 		for _, j := range unE {
-			if k := sameID(j, r.id, r.kind); k != "" {
-				return "wrong-outcome:" + desc(j) + ":got=" + r.kind, fmt.Sprintf("request %d (%s) with id %s: acceptable %s, observed %s", j, entries[j].desc, r.id, clipS(k), clipS(keys[i]))
-			}
-		}
-		for _, j := range unE {
 			for _, a := range entries[j].alts {
 				for _, k := range a.resp {
 					if kindOfKey(k) == r.kind && payloadOfKey(k) == payloadOfKey(keys[i]) && idOfKey(k) != r.id {
 						return "wrong-id:" + desc(j) + ":" + r.kind, fmt.Sprintf("response %s carries id %s, request %d (%s) has id %s", clipS(keys[i]), r.id, j, entries[j].desc, idOfKey(k))
 					}
 				}
+			}
+		}
+		for _, j := range unE {
+			if k := sameID(j, r.id, r.kind); k != "" {
+				return "wrong-outcome:" + desc(j) + ":got=" + r.kind, fmt.Sprintf("request %d (%s) with id %s: acceptable %s, observed %s", j, entries[j].desc, r.id, clipS(k), clipS(keys[i]))
 			}
 		}
 		if len(accepts[keys[i]]) > 0 {
